@@ -218,6 +218,7 @@ func checkC17(c *Ctx) {
 
 	// ---- O4 observations -----------------------------------------------------------------------------
 	c.checkPromObservations("O4 observe")
+	c.checkPromBucketBound("O4 bucket-bound")
 
 	// ---- O5 configuration table ------------------------------------------------------------------------
 	c.checkPromConfig("O5 callback-table")
@@ -227,6 +228,12 @@ func checkC17(c *Ctx) {
 
 	// ---- O7 collaborators ---------------------------------------------------------------------------------
 	c.checkPromCollaborators("O7 collaborators")
+
+	// ---- O8 what reaches the reporter ---------------------------------------------------------------------
+	// "for every counter the sum of its increments, for every gauge its last update": the core's delivery
+	// protocols (shared with C01 / C02, as in C09 O5)
+	c.shared(checkC02, map[string]string{"O2 delivery": "O8 gauge-protocol", "O2 update-order": "O8 gauge-protocol", "O2 raise-after-store": "O8 gauge-protocol", "O4 flag-writers": "O8 gauge-protocol"})
+	c.shared(checkC01, map[string]string{"O2 delta-rmw": "O8 counter-protocol", "O3 delivery": "O8 counter-protocol"})
 }
 
 func (c *Ctx) checkPromAllocator(rule string, fn *ssa.Function, fOnErr *types.Var, handleMethods []string) {
@@ -1623,4 +1630,110 @@ func (c *Ctx) checkPromCollaborators(rule string) {
 			c.ok(rule, key, init.Pos(), fmt.Sprintf("reporter.%s is the caller's %s where that is non-nil and otherwise a default that cannot be nil; defaults only fill a gap (%d stores into option cells)", pr[1], pr[0], nCellStores))
 		}
 	}
+}
+
+// checkPromBucketBound (O4): the bound a Prometheus bucket handle replays its samples at is the
+// bucket's UPPER bound parameter on every path (Prometheus buckets are cumulative with inclusive `le`:
+// a sample replayed at any smaller value - the lower bound of the overflow bucket, say - is also
+// counted at the bounds below the bucket it was recorded in).
+func (c *Ctx) checkPromBucketBound(rule string) {
+	const pk = "prometheus"
+	fUB := c.field(pk, "cachedHistogramBucket", "upperBound")
+	if fUB == nil {
+		c.missing(rule, "prometheus.cachedHistogramBucket.upperBound")
+		return
+	}
+	n := 0
+	for _, name := range []string{"ValueBucket", "DurationBucket"} {
+		fn := c.fn(pk, "cachedMetric", name)
+		if fn == nil || len(fn.Params) != 3 {
+			c.missing(rule, "prometheus.cachedMetric."+name+"(lower, upper)")
+			continue
+		}
+		key := c.fnKey(fn)
+		c.sawFunc(key)
+		lower, upper := ssa.Value(fn.Params[1]), ssa.Value(fn.Params[2])
+		var stores []*ssa.Store
+		instrsOf(fn, func(in ssa.Instruction) {
+			if st, ok := in.(*ssa.Store); ok {
+				if f, _ := addrField(st.Addr); f == fUB {
+					stores = append(stores, st)
+				}
+			}
+		})
+		if len(stores) == 0 {
+			c.bad(rule, key, fn.Pos(), "the bucket handle's bound is not set")
+			continue
+		}
+		ok := true
+		for _, st := range stores {
+			n++
+			usesUpper, usesOther := false, ""
+			seen := map[ssa.Value]bool{}
+			var walk func(v ssa.Value, d int)
+			walk = func(v ssa.Value, d int) {
+				if d == 0 || seen[v] {
+					return
+				}
+				seen[v] = true
+				v = canon(v)
+				switch x := v.(type) {
+				case *ssa.Parameter:
+					if v == upper {
+						usesUpper = true
+					} else if v == lower {
+						usesOther = "the lower bound"
+					} else {
+						usesOther = "another parameter"
+					}
+				case *ssa.Const:
+				case *ssa.Convert:
+					walk(x.X, d-1)
+				case *ssa.ChangeType:
+					walk(x.X, d-1)
+				case *ssa.BinOp:
+					walk(x.X, d-1)
+					walk(x.Y, d-1)
+				case *ssa.Phi:
+					for _, e := range x.Edges {
+						walk(e, d-1)
+					}
+				case *ssa.Call:
+					for _, a := range x.Call.Args {
+						walk(a, d-1)
+					}
+				case *ssa.UnOp:
+					if x.Op == token.MUL {
+						if al, isAl := x.X.(*ssa.Alloc); isAl && al.Referrers() != nil {
+							for _, r := range *al.Referrers() {
+								if s2, isSt := r.(*ssa.Store); isSt && s2.Addr == ssa.Value(al) {
+									walk(s2.Val, d-1)
+								}
+							}
+							return
+						}
+					}
+					usesOther = "a value read from memory"
+				default:
+					usesOther = fmt.Sprintf("%T", v)
+				}
+			}
+			walk(st.Val, 10)
+			if !usesUpper || usesOther != "" {
+				ok = false
+				c.bad(rule, key, st.Pos(), "the bound the bucket handle replays its samples at is not computed from the bucket's upper bound alone (it depends on "+nz(usesOther, "nothing of the upper bound")+"): samples replayed below their bucket's upper bound are also counted at the smaller bounds (cumulative `le` buckets)", c.describe(st))
+			}
+		}
+		if ok {
+			c.ok(rule, key, fn.Pos(), "the handle's bound is computed from the upper-bound parameter only, on every path")
+		}
+	}
+	c.floor(rule, n, 2)
+}
+
+func nz(s, alt string) string {
+	if s == "" {
+		return alt
+	}
+	return s
 }
